@@ -83,12 +83,17 @@ Definition expand (lseq : Z) (dbl : list Z) : outcome (list Z) :=
 Definition cig_len (op : Z) : Z := Z.shiftr op 4.
 Definition cig_type (op : Z) : Z := Z.land op 15.
 
+(** [CigarOpType.Consumes]: an operation type above lastCigar uses the
+    lastCigar entry of the table. *)
+Definition consumes_idx (ct : Z) : Z := if sam_lastCigar <? ct then sam_lastCigar else ct.
+
 Fixpoint rec_end_loop (cig : list Z) (pos e : Z) : outcome Z :=
   match cig with
   | [] => Ok e
   | co :: t =>
-    chk (inb sam_consumeRef (cig_type co)) (
-      let pos := pos + cig_len co * getz sam_consumeRef (cig_type co) in
+    let ct := consumes_idx (cig_type co) in
+    chk (inb sam_consumeRef ct) (
+      let pos := pos + cig_len co * getz sam_consumeRef ct in
       rec_end_loop t pos (Z.max e pos))
   end.
 
@@ -234,11 +239,12 @@ Fixpoint read_cigar_ops (n : nat) (cb : list Z) : list Z :=
 
 (** * parseAux
 
-    [rest] is [aux[i:]]; [spare] is [cap(aux) - len(aux)] (0 for a private
-    record buffer, allocator dependent for the copy made of a shared one; the
-    spare bytes of a fresh copy are zero).  Errors: 20 no terminating zero,
-    21 invalid array length, 22 unrecognised type.  Panic 3: a slice or index
-    expression out of range.  Fuel exhaustion (no progress) is [Stuck]. *)
+    [rest] is [aux[i:]].  Every field is checked against the end of the
+    record before it is sliced.  Errors: 20 no terminating zero, 21 invalid
+    array length, 22 unrecognised type, 23 truncated fixed-size field,
+    24 truncated array header, 25 unrecognised array element type.  Panic 3:
+    an index expression out of range (the type byte is a byte, the table has
+    256 entries).  Fuel exhaustion (no progress) is [Stuck]. *)
 Fixpoint index_byte (l : list Z) (c : Z) : option Z :=
   match l with
   | [] => None
@@ -250,7 +256,7 @@ Definition ocons {A} (a : A) (o : outcome (list A)) : outcome (list A) :=
 
 Definition chk3 {A} (c : bool) (k : outcome A) : outcome A := if c then k else Panic 3.
 
-Fixpoint parse_aux_loop (fuel : nat) (spare : Z) (rest : list Z) : outcome (list (list Z)) :=
+Fixpoint parse_aux_loop (fuel : nat) (rest : list Z) : outcome (list (list Z)) :=
   match fuel with
   | O => Stuck
   | S f =>
@@ -261,38 +267,43 @@ Fixpoint parse_aux_loop (fuel : nat) (spare : Z) (rest : list Z) : outcome (list
       let j := getz bam_jumps t in
       if 0 <? j then
         let j := j + 3 in
-        chk3 (j <=? zlen rest + spare) (
-          ocons (zfirstn j (rest ++ repeat 0 (Z.to_nat spare))) (parse_aux_loop f spare (zskipn j rest)))
+        if zlen rest <? j then Err 23
+        else ocons (zfirstn j rest) (parse_aux_loop f (zskipn j rest))
       else if j <? 0 then
         if (t =? 90) || (t =? 72) then
-          match index_byte rest 0 with
+          (* the terminator is looked for after the tag and type bytes *)
+          match index_byte (zskipn 3 rest) 0 with
           | None => Err 20
-          | Some j => ocons (zfirstn j rest) (parse_aux_loop f spare (zskipn (j + 1) rest))
+          | Some j => let j := j + 3 in ocons (zfirstn j rest) (parse_aux_loop f (zskipn (j + 1) rest))
           end
         else if t =? 66 then
-          chk3 (8 <=? zlen rest + spare) (
-          chk3 (3 <? zlen rest) (
-            let length := le_get (zfirstn 4 (zskipn 4 (rest ++ repeat 0 (Z.to_nat spare)))) in
+          if zlen rest <? 8 then Err 24
+          else
             chk3 (inb bam_jumps (getz rest 3)) (
-            let j := length * getz bam_jumps (getz rest 3) + 4 + 4 in
-            if (j <? 0) || (zlen rest <? j) then Err 21
-            else ocons (zfirstn j rest) (parse_aux_loop f spare (zskipn j rest)))))
-        else parse_aux_loop f spare rest (* inner switch without default: no progress *)
+            let size := getz bam_jumps (getz rest 3) in
+            if size <=? 0 then Err 25
+            else
+              let length := le_get (zfirstn 4 (zskipn 4 rest)) in
+              let j := length * size + 4 + 4 in
+              if (j <? 0) || (zlen rest <? j) then Err 21
+              else ocons (zfirstn j rest) (parse_aux_loop f (zskipn j rest)))
+        else parse_aux_loop f rest (* inner switch without default: no progress *)
       else Err 22)
   end.
 
-Definition parse_aux (spare : Z) (aux : list Z) : outcome (list (list Z)) :=
-  if zlen aux =? 0 then Ok [] else parse_aux_loop (S (length aux)) spare aux.
+Definition parse_aux (aux : list Z) : outcome (list (list Z)) :=
+  if zlen aux =? 0 then Ok [] else parse_aux_loop (S (length aux)) aux.
 
 (** * Reader.Read on the bytes of one record (after the block size)
 
     Result: the record and whether any retained field still aliases the
     reader's shared buffer.  Errors: 10 invalid read name length, 11 invalid
     sequence length, 12 reference id out of range, 13 mate reference id out of
-    range, 20..22 from parseAux. *)
+    range, 20..25 from parseAux, 30 the block is shorter than its own length
+    fields say (the buffer's sticky unexpected-EOF error, reported at [done]). *)
 Definition odef {A} (d : A) (o : option A) : A := match o with Some x => x | None => d end.
 
-Definition decode_record (omit nrefs : Z) (shared : bool) (spare : Z) (data : list Z) : outcome (rec * bool) :=
+Definition decode_record (omit nrefs : Z) (shared : bool) (data : list Z) : outcome (rec * bool) :=
   let '(env, b) := read_fixed bam_Read_fixed (data, false) (fun _ => 0) in
   let refID := env 1 in
   let pos := env 2 in
@@ -311,22 +322,24 @@ Definition decode_record (omit nrefs : Z) (shared : bool) (spare : Z) (data : li
     let '(cb, b) := b_unsafe b (nCigar * 4) in (* readCigarOps copies *)
     let cigar := read_cigar_ops (Z.to_nat (Z.quot (zlen (odef [] cb)) 4)) (odef [] cb) in
     let var :=
-      if bam_AllVariableLengthData <=? omit then Ok (0, [], None, [], false)
+      if bam_AllVariableLengthData <=? omit then Ok (0, [], None, [], false, snd b)
       else if lSeq <? 0 then Err 11
       else
         let '(sq, b) := b_bytes shared b (Z.shiftr lSeq 1 + Z.land lSeq 1) in
         let '(ql, b) := b_bytes shared b lSeq in
-        if bam_AuxTags <=? omit then Ok (lSeq, odef [] sq, ql, [], false)
+        if bam_AuxTags <=? omit then Ok (lSeq, odef [] sq, ql, [], false, snd b)
         else
           let '(ax, b) := b_bytes shared b (b_len b) in
-          match parse_aux (if shared then spare else 0) (odef [] ax) with
-          | Ok aa => Ok (lSeq, odef [] sq, ql, aa, false)
+          match parse_aux (odef [] ax) with
+          | Ok aa => Ok (lSeq, odef [] sq, ql, aa, false, snd b)
           | Err e => Err e
           | Panic w => Panic w
           | Stuck => Stuck
           end in
     obind var (fun v =>
-      let '(ls, sq, ql, aa, alias) := v in
+      let '(ls, sq, ql, aa, alias, berr) := v in
+      if berr then Err 30 (* done: if b.err != nil { return nil, b.err } *)
+      else
       let mk ref mref := mkRec (odef [] nm) ref pos mapq cigar flags mref mpos tlen ls sq ql aa in
       obind (if negb (refID =? -1)
              then if (refID <? -1) || (nrefs <=? refID) then Err 12 else Ok refID
@@ -412,7 +425,7 @@ Inductive stream_end := EndEOF | EndErr (e : Z) | EndPanic (w : Z) | EndStuck.
 (** Errors of newBuffer: 30 unexpected EOF, 31 invalid block size. A block
     size of 0 and an input that ends right after a block size both read as a
     clean EOF (io.ReadFull reports io.EOF when nothing was read). *)
-Fixpoint read_records (fuel : nat) (omit nrefs spare : Z) (bs : list Z) : list (rec * bool) * stream_end :=
+Fixpoint read_records (fuel : nat) (omit nrefs : Z) (bs : list Z) : list (rec * bool) * stream_end :=
   match fuel with
   | O => ([], EndStuck)
   | S f =>
@@ -427,17 +440,17 @@ Fixpoint read_records (fuel : nat) (omit nrefs spare : Z) (bs : list Z) : list (
         let shared := negb (bam_readerBufSize <? size) in
         if zlen rest <? size then ([], if zlen rest =? 0 then EndEOF else EndErr 30)
         else
-          match decode_record omit nrefs shared spare (zfirstn size rest) with
-          | Ok r => let '(rs, e) := read_records f omit nrefs spare (zskipn size rest) in (r :: rs, e)
+          match decode_record omit nrefs shared (zfirstn size rest) with
+          | Ok r => let '(rs, e) := read_records f omit nrefs (zskipn size rest) in (r :: rs, e)
           | Err e => ([], EndErr e)
           | Panic w => ([], EndPanic w)
           | Stuck => ([], EndStuck)
           end
   end.
 
-Definition read_stream (omit spare : Z) (bs : list Z) : outcome (hdr * (list (rec * bool) * stream_end)) :=
+Definition read_stream (omit : Z) (bs : list Z) : outcome (hdr * (list (rec * bool) * stream_end)) :=
   match decode_header bs with
-  | Ok (h, rest) => Ok (h, read_records (S (length rest)) omit (zlen (h_refs h)) spare rest)
+  | Ok (h, rest) => Ok (h, read_records (S (length rest)) omit (zlen (h_refs h)) rest)
   | Err e => Err e
   | Panic w => Panic w
   | Stuck => Stuck
@@ -491,13 +504,13 @@ Definition wf_aux (a : list Z) : bool :=
   all_bytes a && (3 <=? zlen a) &&
   (let t := getz a 2 in
    if 0 <? spec_width t then zlen a =? 3 + spec_width t
-   else if (t =? 90) || (t =? 72) then nonzero_bytes a
+   else if (t =? 90) || (t =? 72) then nonzero_bytes (zskipn 3 a)
    else if t =? 66 then
      (8 <=? zlen a) && (negb (getz a 3 =? 65)) && (0 <? spec_width (getz a 3))
      && (zlen a =? 8 + le_get (zfirstn 4 (zskipn 4 a)) * spec_width (getz a 3))
    else false).
 
-Definition wf_cigar_op (op : Z) : bool := (0 <=? op) && (op <? 2 ^ 32) && (cig_type op <=? 10).
+Definition wf_cigar_op (op : Z) : bool := (0 <=? op) && (op <? 2 ^ 32).
 
 (** Bytes buildAux produces for the aux fields, and the block size of the
     record: the format stores it in an int32. *)
